@@ -62,7 +62,7 @@ def main(tier):
     chk = lib.Check("C05", tier)
     thorough = tier == "thorough"
     chk.assumptions = ["a kill happens at a system-call boundary (no power loss, no torn writes)",
-                       "reflink success is reached through the shim's emulation of ioctl(FICLONE) by a byte copy (no reflink file system in the sandbox)",
+                       "reflink success is reached through the shim's emulation of ioctl(FICLONE) (no reflink file system in the sandbox): the kernel's order of checks - EXDEV, EISDIR, EINVAL for non-regular files, 0 for an empty source, EINVAL for one inode - then a byte copy that never shrinks the destination",
                        "the file system calls are those interposed by the shim (checked against strace in the self-test)"]
     model(chk, thorough)
     if chk.violations:
